@@ -10,7 +10,7 @@ from __future__ import annotations
 import importlib, json, os, sys, traceback, types
 from . import sym as S
 from .sym import ConcreteCtx, PathInfeasible, Unsupported
-from .contract import REGISTRY, Args
+from .contract import REGISTRY, Args, FRAME_LABEL, module_fingerprint, module_writes
 from .run import G, ensure_repo_on_path, repo_root, load_target
 from .interp import Interp, Policy, SourceIndex
 
@@ -81,6 +81,7 @@ def concrete_run(c, values, choices, label, verbose=True, native=True, rng=None,
         a.exc, a.result = None, None
         if record is not None:
             record.update(ctx.leaves)
+        fp0 = module_fingerprint()
         try:
             if getattr(c, "native_entry", None) is not None:
                 a.result = c.native_entry(g, fn, a)
@@ -93,6 +94,10 @@ def concrete_run(c, values, choices, label, verbose=True, native=True, rng=None,
             raise
         except Exception as e:
             a.exc = e
+        if label == FRAME_LABEL:
+            w = [x for x in module_writes(fp0) if x not in c.modifies]
+            out.append(f"module-level containers written by the call: {w}")
+            return ("confirmed" if w else "not-reproduced"), "\n".join(out)
         if a.exc is None:
             out.append(f"real function returned: {show(a.result)}")
             for lab, f in c.post:
